@@ -2,8 +2,8 @@
 import json, os, re, subprocess, sys, time
 from .extract import VERIF, BUILD, REPO, Undecided
 
-EVID = os.path.join(VERIF, "evidence")
-REPLAYS = os.path.join(VERIF, "replays")
+EVID = os.environ.get("VERIF_EVIDENCE_DIR") or os.path.join(VERIF, "evidence")       # overridden only by the audit (scratch copies)
+REPLAYS = os.environ.get("VERIF_REPLAY_DIR") or os.path.join(VERIF, "replays")
 BASELINE = os.path.join(VERIF, "contracts", "baseline.json")
 KNOWN = os.path.join(VERIF, "known_findings.txt")
 
